@@ -57,7 +57,7 @@ def _work(run_one, scen, seed, tf):
         try:
             t = run_one(s)
         except Exception as e:
-            t = {"driver_error": type(e).__name__ + ": " + str(e)[:300], "tb": traceback.format_exc()[-1500:]}
+            t = {"driver_error": type(e).__name__ + ": " + str(e)[:300], "tb": traceback.format_exc()[-1500:], "events": []}
         t["tid"] = s["tid"]
         t.setdefault("scenario", s)
         out.append(t)
